@@ -513,19 +513,22 @@ class Interp:
         """run `fn` from block bb on path p (and its forks) to completion; finished paths go to `done`.
         Paths waiting at a CFG join are merged when their live state is structurally compatible
         (Int/Bool leaves are merged with ite over the diverging path-condition suffixes)."""
-        joins, live = self._analysis(fn)
+        joins, live, rpo = self._analysis(fn)
         p.steps = getattr(p, "steps", 0)
+        p.epoch = 0
         queue = [(p, bb)]
         while queue:
-            # least advanced path first
-            k = min(range(len(queue)), key=lambda i: queue[i][0].steps)
+            # topological order inside one loop iteration (epoch = back edges taken), so that sibling paths
+            # reach a join before any of them leaves it
+            k = min(range(len(queue)), key=lambda i: (queue[i][0].epoch, rpo.get(queue[i][1], 1 << 30), queue[i][0].steps))
             p, bb = queue.pop(k)
             if self.merge and bb in joins:
-                same = [i for i, (q, b2) in enumerate(queue) if b2 == bb]
+                same = [i for i, (q, b2) in enumerate(queue) if b2 == bb and q.epoch == p.epoch]
                 for i in sorted(same, reverse=True):
                     q = queue[i][0]
                     m = merge_paths(self, p, q, live.get(bb))
                     if m is not None:
+                        m.epoch = p.epoch
                         p = m
                         queue.pop(i)
                         self.stats["merged"] += 1
@@ -547,6 +550,7 @@ class Interp:
                     done.append(q)
                 else:
                     q.steps = max(getattr(q, "steps", 0), p.steps)
+                    q.epoch = p.epoch + (1 if rpo.get(nb, 0) <= rpo.get(bb, 0) else 0)
                     queue.append((q, nb))
 
     def _analysis(self, fn):
@@ -590,8 +594,22 @@ class Interp:
         # _0 and reference-typed params stay live (return value / out-parameters)
         for bb in live:
             live[bb] |= {0} | {i for i, _ in fn.params}
-        self._live[fn.header] = (joins, live)
-        return joins, live
+        # reverse post-order from bb0 (back edges = edges to a block with smaller-or-equal index)
+        order, seen = [], set()
+        stack = [(0, iter(succ.get(0, [])))]
+        seen.add(0)
+        while stack:
+            node, itr = stack[-1]
+            adv = False
+            for x in itr:
+                if x in fn.blocks and x not in seen:
+                    seen.add(x); stack.append((x, iter(succ.get(x, [])))); adv = True
+                    break
+            if not adv:
+                order.append(node); stack.pop()
+        rpo = {b: i for i, b in enumerate(reversed(order))}
+        self._live[fn.header] = (joins, live, rpo)
+        return joins, live, rpo
 
     # ---- places
     def parse_place(self, s):
@@ -1124,12 +1142,14 @@ class Interp:
             p.locals[idx] = Cell(a)
         done = []
         saved_steps = getattr(p, "steps", 0)
+        saved_epoch = getattr(p, "epoch", 0)
         self._exec(target, p, 0, {}, done)
         out = []
         for d in done:
             d.locals = d.stack.pop()
             d.fn_stack = d.fn_stack[:-1]
             d.steps = saved_steps
+            d.epoch = saved_epoch
             if d.outcome[0] == "return":
                 rv = d.outcome[1]
                 d.outcome = None
@@ -1171,6 +1191,7 @@ def fork(p):
     q.trace = list(p.trace)
     q.fn_stack = list(getattr(p, "fn_stack", []))
     q.steps = getattr(p, "steps", 0)
+    q.epoch = getattr(p, "epoch", 0)
     return q
 
 
@@ -1265,7 +1286,11 @@ def _merge_val(it, a, b, cp, memo):
     if isinstance(a, Int):
         if a.w != b.w:
             raise _NoMerge()
-        return a if a.t.eq(b.t) else Int(z3.If(cp, a.t, b.t), a.w, a.signed)
+        if a.t.eq(b.t):
+            return a
+        if (z3.is_bv_value(a.t) or z3.is_int_value(a.t)) and (z3.is_bv_value(b.t) or z3.is_int_value(b.t)):
+            raise _NoMerge()      # keep concrete counters / indices concrete: different loop iterations are not merged
+        return Int(z3.If(cp, a.t, b.t), a.w, a.signed)
     if isinstance(a, Bool):
         return a if a.t.eq(b.t) else Bool(z3.If(cp, a.t, b.t))
     if isinstance(a, Tup):
